@@ -240,6 +240,23 @@ def run_convert(ctx, pool):
                 break
         else:
             back.append((n, k, j))
+    # non-minimal encodings (RFC 7518 2: Base64urlUInt uses the minimum number of octets; EC coordinates are full width):
+    # such input is refused or normalised - the numbers survive, and nothing else changes
+    rsa2 = pool["RSA-2048"]
+    nonmin = [("RSA e with a leading zero octet", dict(K.public(rsa2), e=G.b64u(b"\0" + G.b64d(rsa2["e"]))), "e"),
+              ("RSA n with a leading zero octet", dict(K.public(rsa2), n=G.b64u(b"\0" + G.b64d(rsa2["n"]))), "n"),
+              ("RSA d with a leading zero octet", dict(rsa2, d=G.b64u(b"\0" + G.b64d(rsa2["d"]))), "d")]
+    for (why, k, m), r in zip(nonmin, ctx.real([("ossl.roundtrip", {"jwk": k}) for _, k, _ in nonmin])):
+        ctx.evaluations += 1
+        j = r.get("jwk")
+        if r.get("imported") and isinstance(j, dict):
+            if int.from_bytes(G.b64d(j.get(m, "")), "big") != int.from_bytes(G.b64d(k[m]), "big"):
+                ctx.pfails.append(("convert:member", "%s: the number changes in conversion to OpenSSL and back" % why, "ossl.roundtrip", {"jwk": k}, r))
+            for m2 in k:
+                if m2 not in (m, ) and j.get(m2) != k[m2]:
+                    ctx.pfails.append(("convert:member", "%s: member %r changes too" % (why, m2), "ossl.roundtrip", {"jwk": k}, r))
+                    break
+        ctx.count("convert:non-minimal-encodings")
     # conversion never yields a key with *less* than the JWK had: a member that is present but is not decodable text is
     # not read as absent — the conversion fails (a private key must not quietly become a public or a CRT-only one)
     junk_ops = []
